@@ -102,7 +102,9 @@ prop("C13", "c13",
      "cases = generated plans with batches nested 0..3 deep (HCtl and MultiDispatcher controllers with library SystemData as declared data), static library-typed systems, dynamic systems and thread-local systems, set up 1..3 times in worlds where a random subset of the 32 resources pre-exists with sentinel values, with inserts/removes and (half of the time) a dispatch between rounds - one that completes or one in which an ordinary, thread-local or batch-member system panics and the caller catches it - then disposed; every 8th case uses AsyncDispatcher::setup, half of those a second time after dispatch + wait in which a thread-local system may panic (caught). "
      "setup and dispose are called through the inherent methods or through the dispatcher's RunNow impl (RunNow::setup, RunNow::dispose on the boxed dispatcher). "
      "Oracles: per-system setup counter == number of setup calls, dispose counter == 1 (any depth, thread-local included); world before/after against a reference (pre-existing values untouched, default-providing accessors create the default, Option/Expect create nothing). "
-     "distinct non-trivial = (plan hash, initial-world density) with a batch member or thread-local system and >=1 pre-existing resource.")
+     "The thorough tier repeats a slice under AddressSanitizer + LeakSanitizer (dispose consumes the boxed systems, batches own an inner dispatcher behind an `unsafe impl Send`: a system that is neither disposed nor dropped is a leak, one handed out twice a double free) and a few dozen cases under Miri. "
+     "distinct non-trivial = (plan hash, initial-world density) with a batch member or thread-local system and >=1 pre-existing resource.",
+     thorough=[shards(name="main"), san("asan", name="asan", scale=0.05), miri(rayon=True, name="miri", scale=0.0001)])
 
 prop("C05", "c05",
      "cases = generated plans (static library-typed and dynamic systems mixed, thread-local systems, batches; few hot slots so that slots have several writers) instantiated twice: a parallel twin (dispatch / dispatch_par on a pool of 1..16 under jitter, forced overlap or a random scripted interleaving of one stage) and a twin run with dispatch_seq; after every one of 2-4 dispatches the order-sensitive world digest (a, b, hist, padding of all 32 slots) and the per-system state digests must be equal; a canary pair (a != b) seen by any system is a torn value. "
